@@ -10,6 +10,7 @@ import (
 	"os"
 	"runtime"
 	"strconv"
+	"strings"
 	"sync"
 	"sync/atomic"
 	"time"
@@ -470,11 +471,27 @@ func runC19(w *World, st *Stats, r *Rng, k, dk Kind, R, W, iters, procs int, car
 		seeds[i] = r.Next()
 	}
 	var mism int64
+	var crashMu sync.Mutex
+	crashMsg := ""
+	defer func() {
+		if crashMsg != "" {
+			fmt.Fprintf(w.out, "gencrash goroutine_panicked:%s\n", crashMsg)
+		}
+	}()
 	var wg sync.WaitGroup
 	for ri := 0; ri < R; ri++ {
 		wg.Add(1)
 		go func(ri int) {
 			defer wg.Done()
+			defer func() {
+				// a panic of a read-only entry point on a well-formed shared buffer is a result, not a crash
+				if e := recover(); e != nil {
+					atomic.AddInt64(&mism, 1)
+					crashMu.Lock()
+					crashMsg = strings.ReplaceAll(fmt.Sprint(e), " ", "_")
+					crashMu.Unlock()
+				}
+			}()
 			lr := &Rng{s: seeds[ri]}
 			dst := NewSlice(dk, make([]uint64, ro.Len()), false)
 			cols := make([]DynSlice, ch)
@@ -570,6 +587,14 @@ func runC19(w *World, st *Stats, r *Rng, k, dk Kind, R, W, iters, procs int, car
 		wg.Add(1)
 		go func(wi int) {
 			defer wg.Done()
+			defer func() {
+				if e := recover(); e != nil {
+					atomic.AddInt64(&mism, 1)
+					crashMu.Lock()
+					crashMsg = strings.ReplaceAll(fmt.Sprint(e), " ", "_")
+					crashMu.Unlock()
+				}
+			}()
 			lr := &Rng{s: seeds[R+wi]}
 			v := w.views[wviews[wi]]
 			if carve {
